@@ -22,7 +22,7 @@ from typing import Any, Callable, Iterable, Sequence
 
 ROOT = Path(__file__).resolve().parent.parent
 LEAN = ROOT / "lean"
-EVIDENCE = ROOT / "evidence"
+EVIDENCE = Path(os.environ.get("VERIF_EVIDENCE_DIR", str(ROOT / "evidence")))  # seeded-change runs write elsewhere
 REPLAYS = ROOT / "replays"
 CORPUS = ROOT / "corpus"
 KNOWN = ROOT / "known_findings.json"
@@ -442,6 +442,11 @@ class Check:
                 o = with_timeout(impl_timeout, lambda: impl(c))
             except ImplTimeout as e:
                 o = [f"TIMEOUT {e}"]
+            except Infra:
+                raise
+            except Exception as e:  # the implementation side could not be driven on this case
+                o = [f"harness-exception:{type(e).__name__}:{str(e)[:200]}"]
+                self.notes.append(f"stream {stream}: driving the implementation raised {type(e).__name__}: {str(e)[:300]}")
             impl_out.append([str(x) for x in o])
         try:
             model_out = drive(model, all_lines)
@@ -484,6 +489,12 @@ class Check:
                 r = with_timeout(impl_timeout, lambda: oracle(c))
             except ImplTimeout as e:
                 r = Failure(timeout_key or "impl-timeout", c, str(e))
+            except Infra:
+                raise
+            except Exception as e:  # the oracle could not observe the implementation on this case
+                self.proof_broken.append(f"oracle raised {type(e).__name__} on a case: {str(e)[:300]}")
+                self.evaluations += 1
+                continue
             self.evaluations += 1
             if r is None:
                 continue
